@@ -265,6 +265,11 @@ def check(ctx: Ctx) -> None:  # noqa: C901, PLR0912, PLR0915
                 ctx.add("6-identity", fn, ret, used, f"{t}: key includes `{alts}`" if used else f"{t}: key does not include `{alts}` - {why}{lossy}", key=f"{t}.{alts}")
     ctx.floor("6-identity", n6, 9)
 
+    for c in [c for c in ast.walk(fn.node) if isinstance(c, ast.Call) and isinstance(c.func, ast.Attribute) and c.func.attr in ("flatten", "ravel", "tobytes", "tolist", "reshape") and norm(c.func.value) == "obj"]:
+        bad_order = [k for k in c.keywords if k.arg == "order" and not (isinstance(k.value, ast.Constant) and k.value.value == "C")]
+        n6 += 1
+        ctx.add("6-identity", fn, c, not bad_order, f"`{norm(c)}` flattens in logical (C) order" if not bad_order else
+                f"`{norm(c)}` flattens in memory order: arrays with equal shape/dtype but different content (a transposed view) get the same key, equal C- and F-ordered arrays different ones", key=f"flatten-order {norm(c)[:40]}")
     # ---- 7 stable
     bad = [c for r in all_returns for c in ast.walk(r) if isinstance(c, ast.Call) and dotted(c.func) in ("hash", "id")]
     ctx.add("7-stable", fn, bad[0] if bad else fn.node, not bad, "no hash()/id() in any returned key" if not bad else "a returned key contains hash()/id(): differs between processes", key="no-hash-in-key")
@@ -292,6 +297,11 @@ def check(ctx: Ctx) -> None:  # noqa: C901, PLR0912, PLR0915
             used = {dotted(c.func).rsplit(".", 1)[-1] for c in ast.walk(s.value) if isinstance(c, ast.Call)}
             ok = bool(used & allowed)
             ctx.add("8-sole", f, s, ok, f"`{var}` built through {sorted(used & allowed)}" if ok else f"`{var}` is built without to_hashable: {norm(s.value)[:80]}", key=f"{var}=")
+    mw = ctx.prog.func(f"{MOD}.memoize.decorator.wrapper")
+    th = [c for c in ast.walk(mw.node) if isinstance(c, ast.Call) and dotted(c.func) == "try_to_hashable"]
+    ok = bool(th) and isinstance(th[0].args[0], ast.Tuple) and [norm(e) for e in th[0].args[0].elts] == ["args", "kwargs"]
+    ctx.add("8-sole", mw, th[0] if th else mw.node, ok, "memoize keys the pair (args, kwargs) as one object" if ok else
+            f"memoize hashes `{norm(th[0].args[0])[:50] if th else '?'}` instead of the pair (args, kwargs): different calls (positional vs keyword spellings) share a key", key="memoize-key-object")
     gk = ctx.prog.func("pipefunc.map._run._get_or_set_cache")
     s = next(s for s in walk_no_nested(gk.node) if isinstance(s, ast.Assign) and norm(s.targets[0]) == "cache_key")
     ok = "func.output_name" in norm(s.value)
@@ -330,6 +340,8 @@ MUTANTS = [
     Mutant("map-key-no-output-name", "pipefunc/map/_run.py", "cache_key = (func.output_name, to_hashable(kwargs))", "cache_key = to_hashable(kwargs)", ("C15.8-sole",)),
     Mutant("map-key-str", "pipefunc/map/_run.py", "cache_key = (func.output_name, to_hashable(kwargs))", "cache_key = (func.output_name, str(kwargs))", ("C15.8-sole",)),
     Mutant("pipeline-key-raw", "pipefunc/_pipeline/_cache.py", "        key = to_hashable(kwargs[k])\n", "        key = kwargs[k]\n", ("C15.8-sole",)),
+    Mutant("ndarray-memory-order", F, "            data = tuple(obj.flatten())\n", "            data = tuple(obj.ravel(order=\"K\"))\n", ("C15.6-identity",), why="seeded C15/1"),
+    Mutant("memoize-args-only-key", F, "                    (args, kwargs),\n", "                    (args, kwargs) if kwargs else args,\n", ("C15.8-sole",), why="seeded C15/3"),
     Mutant("twin-rename-marker", F, "    m = _HASH_MARKER\n", "    m = _HASH_MARKER  # marker\n", twin=True),
     Mutant("twin-set-tuple-test", F, "if isinstance(obj, set | frozenset):", "if isinstance(obj, (set, frozenset)):", twin=True),
     Mutant("twin-sorted-helper-inline", F, "    items = list(items)\n    try:\n        return sorted(items, key=key)",
